@@ -8,7 +8,7 @@ from gev import core, grammars, refmodel, stream, workload
 
 PROPERTY = "C11"
 LEVEL = "exploration"
-TECHNIQUE = "runtime monitor: independent fold over the actual structure of every returned program compared with the gengy_nodes / gengy_distance_to_term / gengy_weighted_nodes / gengy_types_this_way attributes of EVERY node (after creation by every decider, after every mutation and crossover, and for genotype-mapped programs)"
+TECHNIQUE = "runtime monitor: independent fold over the actual structure of every returned program compared with the gengy_nodes / gengy_distance_to_term / gengy_weighted_nodes / gengy_types_this_way attributes of EVERY node (after creation by every decider, after every mutation and crossover, and for genotype-mapped programs); under expansion depthing the comparison is against an interval reference (documented increments exact, undocumented ones bracketed between their lowest and highest reading); the parents of every variation are re-checked after it"
 RULE = (
     "cases = (generated grammar with lists, lists of lists, unions, tuples; representation; decider; seed; op sequence); every node of every "
     "returned program is compared with the reference fold; distinct_nontrivial = distinct (canonical subtree, labels) pairs with at least one child node"
